@@ -114,7 +114,8 @@ func (c10) Rule() string {
 		"predicates, and with the same request on a fresh Runtime; exhaustive over pairs of operation scheme lists up to length 2 on a " +
 		"Runtime without schemes. A third of the cases with caller query parameters have some of them written by an auth writer (operation AuthInfo or " +
 		"Runtime.DefaultAuthentication; client.APIKeyAuth in the query) instead of the params writer, also enumerated against static parameters of " +
-		"the same name. Non-trivial: a url case with at least one placeholder " +
+		"the same name. An eighth of the base paths and of the patterns fix query parameters WITHOUT a value (bare flag, blank value, blank twice, blank next to a value; " +
+		"names colliding across base path, pattern and caller), also enumerated (6 base paths x 5 patterns x 3 caller sets). Non-trivial: a url case with at least one placeholder " +
 		"that has a value, or a static query; a scheme case with two or more schemes; every esc/join case; a history of two or more steps."
 }
 
@@ -190,6 +191,16 @@ func (c10) Enumerate(tier string) []any {
 			}
 		}
 	}
+	// static parameters fixed without a value (flag, blank, blank twice, blank next to a value) in the base path and/or the
+	// pattern x the caller leaving them alone or overriding them (no value, blank, a value)
+	for i, b := range []string{"/api", "/api?wsdl", "/api?debug=", "/api?debug=1", "/api/?debug=&debug=", "api?debug=&debug=x&wsdl"} {
+		for j, p := range []string{"/pets/{id}", "/pets/{id}?watch", "/pets/{id}?debug=", "/pets/?pretty=&format=full", "/pets/{id}/?debug=2&watch="} {
+			for _, qp := range [][]c10KVs{nil, {{"debug", []Bs{""}}}, {{"debug", []Bs{"c"}}, {"watch", nil}}} {
+				out = append(out, c10In{Kind: "url", Host: "h", Base: Bs(b), Pattern: Bs(p), PP: []c10KV{{"id", "7"}}, QP: qp,
+					Ctor: []string{"", "withclient", "direct"}[(i+j)%3]})
+			}
+		}
+	}
 	// every single byte through the escaping functions
 	for c := 0; c < 256; c++ {
 		out = append(out, c10In{Kind: "esc", V: Bs([]byte{byte(c)})})
@@ -230,10 +241,58 @@ func c10PathLikeQuery(r *rand.Rand) string {
 	return strings.Join(parts, "&")
 }
 
-// c10Base draws a base path: the fixed table, or (one in four) a path part followed by a path-like query string
+// static query parameters fixed WITHOUT a value: a bare flag (?wsdl), a blank value (?pretty=), several blank values, a blank
+// value next to a real one, mixed with valued parameters. Names collide with the caller's names (c10QNames) and with each other
+// across base path and pattern, so that blank-over-valued and valued-over-blank precedence is exercised.
+var c10BlankNames = []string{"wsdl", "watch", "pretty", "debug", "shared", "k", "bonly", "ponly", "q", "x", "a", "x y"}
+
+func c10BlankQuery(r *rand.Rand) string {
+	n := 1 + r.Intn(3)
+	var parts []string
+	for i := 0; i < n; i++ {
+		k := url.QueryEscape(c10BlankNames[r.Intn(len(c10BlankNames))])
+		switch r.Intn(7) {
+		case 0, 1:
+			parts = append(parts, k)
+		case 2, 3:
+			parts = append(parts, k+"=")
+		case 4:
+			parts = append(parts, k+"=&"+k)
+		case 5:
+			parts = append(parts, k+"=&"+k+"=v"+fmt.Sprint(i))
+		default:
+			parts = append(parts, k+"="+[]string{"1", "full", "base", "a+b"}[r.Intn(4)])
+		}
+	}
+	return strings.Join(parts, "&")
+}
+
+// c10BlankStatic: the query string of a base path or pattern fixes a parameter without a value
+func c10BlankStatic(s string) bool {
+	_, q, ok := strings.Cut(s, "?")
+	if !ok {
+		return false
+	}
+	q, _, _ = strings.Cut(q, "#")
+	for _, part := range strings.Split(q, "&") {
+		if part == "" {
+			continue
+		}
+		if _, v, _ := strings.Cut(part, "="); v == "" {
+			return true
+		}
+	}
+	return false
+}
+
+// c10Base draws a base path: the fixed table, or (one in four) a path part followed by a path-like query string, or (one in
+// eight) a path part followed by a query string with valueless parameters
 func c10Base(r *rand.Rand) string {
-	if r.Intn(4) == 0 {
+	switch k := r.Intn(8); {
+	case k < 2:
 		return c10PQParts[r.Intn(len(c10PQParts))] + "?" + c10PathLikeQuery(r)
+	case k == 2:
+		return c10PQParts[r.Intn(len(c10PQParts))] + "?" + c10BlankQuery(r)
 	}
 	return c10Bases[r.Intn(len(c10Bases))]
 }
@@ -396,6 +455,8 @@ func c10GenURL(r *rand.Rand, adversarial bool) c10In {
 		}
 	case 4:
 		sb.WriteString("?" + c10PathLikeQuery(r))
+	case 5:
+		sb.WriteString("?" + c10BlankQuery(r))
 	}
 	in.Pattern = Bs(sb.String())
 	if adversarial && r.Intn(10) == 0 {
@@ -896,6 +957,9 @@ func (c10) Category(inAny any, obsAny any) (string, bool) {
 	}
 	if c10PathLikeStatic(string(in.Base)) || c10PathLikeStatic(string(in.Pattern)) {
 		tags = append(tags, "pathlike-staticq")
+	}
+	if c10BlankStatic(string(in.Base)) || c10BlankStatic(string(in.Pattern)) {
+		tags = append(tags, "blank-staticq")
 	}
 	if in.Ctor != "" {
 		tags = append(tags, in.Ctor)
